@@ -2,7 +2,7 @@
 //! ends with an error value, not a crash.
 //! Domain: loop shapes x iteration counts x JIT on/off x entry (top-level text / module).
 //! Oracle: (invariant) the frame-stack and operand-stack depths read by the `#%verif-depths`
-//! hook at iteration 16 and at iteration n-16 are identical; (model) the loop's result equals
+//! hook at iterations 24, n/2 and n-16 do not grow (beyond a constant); (model) the loop's result equals
 //! the closed form.  Second clause: non-tail recursion of depth d returns d or an error value.
 
 use crate::runner::*;
@@ -38,6 +38,10 @@ pub enum Shape {
     OutOfNamedLet,
     /// the tail call sits in a handler's body
     FromHandler,
+    /// k accumulators rotated on every iteration (argument shuffle over the current frame), the
+    /// tail call nested in `lets` let forms each binding `width` temporaries; `mutual`: the loop
+    /// alternates between two functions of the same arity
+    Shuffle { arity: usize, lets: usize, width: usize, mutual: bool },
     /// non-tail recursion of the given depth: must end Ok or Err
     Deep,
 }
@@ -49,16 +53,28 @@ pub struct LoopCase {
     pub module: bool,
 }
 
+/// probe iterations are multiples of 12 so that they fall into the first function of a mutual group
+fn mid(n: u64) -> u64 {
+    (n / 2) / 12 * 12
+}
+fn late(n: u64) -> u64 {
+    (n - 16) / 12 * 12
+}
+
 /// loop head shared by all shapes: records the depths at two iterations
 fn probes(n: u64) -> String {
-    format!("(when (= i 16) (set-box! da (#%verif-depths))) (when (= i {}) (set-box! db (#%verif-depths)))", n - 16)
+    format!(
+        "(when (= i 24) (set-box! da (#%verif-depths))) (when (= i {}) (set-box! dm (#%verif-depths))) (when (= i {}) (set-box! db (#%verif-depths)))",
+        mid(n),
+        late(n)
+    )
 }
 
 /// (definitions, call expression whose value is the loop result); the result must be n(n-1)/2
 pub fn render(c: &LoopCase) -> (String, String) {
     let n = c.n;
     let p = probes(n);
-    let head = "(define da (box #f))\n(define db (box #f))\n".to_string();
+    let head = "(define da (box #f))\n(define dm (box #f))\n(define db (box #f))\n".to_string();
     let (defs, call) = match &c.shape {
         Shape::SelfLoop => (format!("(define (lp i acc) {} (if (= i {}) acc (lp (+ i 1) (+ acc i))))", p, n), "(lp 0 0)".to_string()),
         Shape::Mutual(k) => {
@@ -113,6 +129,35 @@ pub fn render(c: &LoopCase) -> (String, String) {
             format!("(define (lp i acc) {} (if (= i {}) acc (with-handler (lambda (e) (lp (+ i 1) (+ acc i))) (car 5))))", p, n),
             "(lp 0 0)".to_string(),
         ),
+        Shape::Shuffle { arity, lets, width, mutual } => {
+            // (lp i a0 .. ak-1): next = (a1 .. ak-1 (modulo (+ a0 i) 1000003)); temporaries t_l_w = (+ a_x l) are
+            // used as (- t l) so that every let level and slot takes part in the shuffle
+            let k = *arity;
+            let params: Vec<String> = (0..k).map(|j| format!("a{}", j)).collect();
+            let mut args: Vec<String> = (1..k).map(|j| format!("a{}", j)).collect();
+            args.push("(modulo (+ a0 i) 1000003)".to_string());
+            let mut open = String::new();
+            let mut close = String::new();
+            for l in 0..*lets {
+                let binds: Vec<String> = (0..*width).map(|w| format!("(t{}x{} (+ a{} {}))", l, w, (l + w) % k, l + 1)).collect();
+                open.push_str(&format!("(let ({}) ", binds.join(" ")));
+                close.push(')');
+                // route arguments through the temporaries of this level
+                for w in 0..*width {
+                    let src = (l + w) % k;
+                    if src >= 1 && args[src - 1] == format!("a{}", src) && (l + w) % 2 == 0 {
+                        args[src - 1] = format!("(- t{}x{} {})", l, w, l + 1);
+                    }
+                }
+            }
+            let callee = if *mutual { "lq" } else { "lp" };
+            let mut d = format!("(define (lp i {}) {} (if (= i {}) (list {}) {}({} (+ i 1) {}){}))", params.join(" "), p, n, params.join(" "), open, callee, args.join(" "), close);
+            if *mutual {
+                d.push_str(&format!("\n(define (lq i {}) (if (= i {}) (list {}) {}(lp (+ i 1) {}){}))", params.join(" "), n, params.join(" "), open, args.join(" "), close));
+            }
+            let init: Vec<String> = (0..k).map(|j| format!("{}", j + 1)).collect();
+            (d, format!("(lp 0 {})", init.join(" ")))
+        }
         Shape::Deep => (format!("(define (deep k) (if (= k 0) 0 (+ 1 (deep (- k 1)))))"), format!("(deep {})", n)),
     };
     (format!("{}{}", head, defs), call)
@@ -120,7 +165,7 @@ pub fn render(c: &LoopCase) -> (String, String) {
 
 fn case_for(c: &LoopCase) -> (Case, String) {
     let (defs, call) = render(c);
-    let tail = "(list (unbox da) (unbox db))";
+    let tail = "(list (unbox da) (unbox dm) (unbox db))";
     if c.module {
         let m = format!("(provide result depths)\n{}\n(define result {})\n(define depths {})\n", defs, call, tail);
         let main = "(require \"vmain\")\nresult\ndepths".to_string();
@@ -169,19 +214,36 @@ pub fn check(ws: &mut Workers, c: &LoopCase, cfg: &Config) -> Result<bool, Failu
     }
     let vals: Vec<&String> = st.values.iter().filter(|v| *v != "#void").collect();
     if vals.len() != 2 {
-        return Err(Failure::new("c09:novalue", format!("{}\nvalues: {:?}", ctxt, st.values)));
+        return Err(Failure::new("c09:lost-result-void", format!("{}\nvalues: {:?}", ctxt, st.values)));
     }
-    let expect = c.n as u128 * (c.n as u128 - 1) / 2;
-    if *vals[0] != format!("i:{}", expect) {
-        return Err(Failure::new("c09:wrong-result", format!("{}\nexpected i:{}\nactual {}", ctxt, expect, vals[0])));
+    let expect = match &c.shape {
+        Shape::Shuffle { arity, .. } => {
+            let k = *arity;
+            let mut a: Vec<u64> = (0..k as u64).map(|j| j + 1).collect();
+            for i in 0..c.n {
+                let first = (a[0] + i) % 1000003;
+                a.rotate_left(1);
+                a[k - 1] = first;
+            }
+            format!("({})", a.iter().map(|x| format!("i:{}", x)).collect::<Vec<_>>().join(" "))
+        }
+        _ => format!("i:{}", c.n as u128 * (c.n as u128 - 1) / 2),
+    };
+    if *vals[0] != expect {
+        return Err(Failure::new("c09:wrong-result", format!("{}\nexpected {}\nactual {}", ctxt, expect, vals[0])));
     }
-    // depths: ((fa . oa) (fb . ob))
-    let d = vals[1].trim_start_matches('(').trim_end_matches(')');
-    let parts: Vec<&str> = d.split(") (").collect();
-    if parts.len() != 2 || parts[0] != parts[1] {
+    // depths: ((fa . oa) (fm . om) (fb . ob)) at iterations 16, n/2 and n-16.  "Constant space" is read
+    // as: no growth between the middle and the end beyond a small constant, and none beyond a
+    // constant since the start (the JIT tier switches frame layout once, early in the loop).
+    let nums: Vec<i64> = vals[1].split(|ch: char| !ch.is_ascii_digit()).filter(|t| !t.is_empty()).filter_map(|t| t.parse().ok()).collect();
+    if nums.len() != 6 || vals[1].contains("#f") {
+        return Err(Failure::new("c09:probe-not-reached-void", format!("{}\ndepth probes: {}", ctxt, vals[1])));
+    }
+    let (fa, oa, fm, om, fb, ob) = (nums[0], nums[1], nums[2], nums[3], nums[4], nums[5]);
+    if fb > fm + 8 || ob > om + 8 || fb > fa + 64 || ob > oa + 64 {
         return Err(Failure::new(
             "c09:stack-growth",
-            format!("{}\n(frames . operands) at iteration 16 and at iteration {}: {}", ctxt, c.n - 16, vals[1]),
+            format!("{}\n(frames . operands) at iterations 24, {} and {}: {}", ctxt, mid(c.n), late(c.n), vals[1]),
         ));
     }
     Ok(true)
@@ -214,20 +276,35 @@ fn shapes() -> Vec<Shape> {
 }
 
 fn check_all(ctx: &Ctx, ws: &mut Workers, c: &LoopCase, counting: bool) -> PropResult {
-    for cfg in [Config::default_cfg(), Config::jit_off()] {
+    // JIT off first: a failure that only shows with the JIT on is classed `jitdiv`
+    let mut off_ok = false;
+    for cfg in [Config::jit_off(), Config::default_cfg()] {
+        let jit_on = cfg.0.is_empty();
         match check(ws, c, &cfg) {
             Ok(conclusive) => {
                 ctx.stats.engine_runs.fetch_add(1, std::sync::atomic::Ordering::Relaxed);
                 if !conclusive && counting {
                     ctx.stats.inconclusive.fetch_add(1, std::sync::atomic::Ordering::Relaxed);
                 }
+                if conclusive && !jit_on {
+                    off_ok = true;
+                }
             }
-            Err(f) => return Err(f),
+            Err(f) => {
+                if jit_on && off_ok {
+                    let sub = f.sig.split_once(':').map(|x| x.1).unwrap_or(&f.sig).to_string();
+                    return Err(Failure::new(format!("c09:jitdiv:{}", sub), format!("(the same loop passes under STEEL_JIT=false)\n{}", f.detail)));
+                }
+                return Err(f);
+            }
         }
     }
     if counting {
         ctx.stats.eval();
-        ctx.stats.class(&format!("{:?}", c.shape).split('(').next().unwrap().to_string());
+        ctx.stats.class(&format!("{:?}", c.shape).split(|ch| ch == '(' || ch == ' ').next().unwrap().to_string());
+        if let Shape::Shuffle { arity, lets, .. } = &c.shape {
+            ctx.stats.class(&format!("shuffle-arity-{}-lets-{}", arity, lets));
+        }
         if c.shape != Shape::SelfLoop && c.n >= 100_000 {
             ctx.stats.nontrivial(&format!("{:?}", c));
         }
@@ -243,7 +320,7 @@ pub fn run(ctx: &Ctx, replay: Option<&str>) -> i32 {
         "loop shapes (self, mutual among 2-4, through a parameter, through apply, rest arguments with 0-2 surplus arguments, 1-4 \
          let temporaries, a closure created per iteration, tail position in cond/case/when/and/or/begin, tail call out of an inner \
          named let, tail call from a handler body) x iteration count x JIT on/off x entry (top-level text / module); plus non-tail \
-         recursion of depth 10^4..2*10^7. The frame and operand stack depths at iteration 16 and n-16 must be identical and the \
+         recursion of depth 10^4..2*10^7. The frame and operand stack depths at iterations 24, n/2 and n-16 must not grow (late <= middle + 8, late <= early + 64) and the \
          result must equal n(n-1)/2. Non-trivial = shape other than the plain self loop with n >= 10^5.",
     );
     ctx.assume("hook #%verif-depths reports the lengths of the frame stack and the operand stack");
@@ -269,7 +346,7 @@ pub fn run(ctx: &Ctx, replay: Option<&str>) -> i32 {
         let mut ws = Workers::new();
         replay_tier::<LoopCase>(ctx, "loop", &mut |c| check_all(ctx, &mut ws, c, false));
     }
-    let total = ctx.n(160, 1200);
+    let total = ctx.n(600, 6000);
     let big: u64 = if ctx.quick() { 1_000_000 } else { 10_000_000 };
     let fails = run_prop(
         ctx,
@@ -278,7 +355,14 @@ pub fn run(ctx: &Ctx, replay: Option<&str>) -> i32 {
             let sh = shapes();
             prop_oneof![
                 8 => (prop::sample::select(sh), prop::sample::select(vec![1_000u64, 100_000, 100_000, 250_003, big]), any::<bool>())
-                    .prop_map(|(shape, n, module)| LoopCase { shape, n, module }),
+                    .prop_map(|(shape, n, module)| {
+                        // KF-C09-handler-tail-grows: a loop through a handler's tail call grows by four frames
+                        // per iteration and takes quadratic time; it is generated at a small count only
+                        let n = if shape == Shape::FromHandler { 600 } else { n };
+                        LoopCase { shape, n, module }
+                    }),
+                8 => (1usize..=6, 0usize..=3, 1usize..=3, any::<bool>(), prop::sample::select(vec![1_000u64, 100_000, 250_003, big / 4]), any::<bool>())
+                    .prop_map(|(arity, lets, width, mutual, n, module)| LoopCase { shape: Shape::Shuffle { arity, lets, width, mutual }, n, module }),
                 1 => (prop::sample::select(vec![10_000u64, 1_000_000, 20_000_000]), any::<bool>()).prop_map(|(n, module)| LoopCase { shape: Shape::Deep, n, module }),
             ]
         },
